@@ -190,28 +190,50 @@ func ruleELIDE(c *Ctx) []Obligation {
 			default:
 				return true
 			}
-			root := rootIdent(other)
-			if root == nil {
-				return true
+			judge := func(who *types.Func, pos token.Pos, oinfo *types.Info, other ast.Expr) {
+				root := rootIdent(other)
+				if root == nil {
+					return
+				}
+				n := namedOf(oinfo.TypeOf(root))
+				if n == nil {
+					return
+				}
+				k := typeKey(n)
+				o := Obligation{Key: fmt.Sprintf("%s omits the comdat name of %s when it equals the default", funcKey(who), k), Pos: c.pos(pos), Verdict: OK}
+				want, has := readerDefault[k]
+				got := normRoot(other)
+				switch {
+				case !has:
+					o.Verdict, o.Detail = UNDECIDED, "no translator case for *ast.Comdat fills a "+k
+				case got != want:
+					o.Verdict = VIOL
+					o.Detail = fmt.Sprintf("the printer writes the bare `comdat` when Comdat.Name == %s, the translator (%s) resolves a bare `comdat` to %s: for an entity on which the two differ the printed text names another comdat (or none)", got, readerPos[k], want)
+				default:
+					o.Detail = fmt.Sprintf("printer and translator both use %s", want)
+				}
+				obs = append(obs, o)
 			}
-			n := namedOf(info.TypeOf(root))
-			if n == nil {
-				return true
+			// the default compared with may be a parameter of a shared helper
+			// (writeComdat(buf, sep, comdat, name)): judged at each call with the argument passed
+			if id, ok := unparen(other).(*ast.Ident); ok {
+				sig := fn.Type().(*types.Signature)
+				for pi := 0; pi < sig.Params().Len(); pi++ {
+					if info.ObjectOf(id) != sig.Params().At(pi) {
+						continue
+					}
+					c.eachFunc(pkgIR, func(p2 *packages.Package, fd2 *ast.FuncDecl, caller *types.Func) {
+						ast.Inspect(fd2.Body, func(m ast.Node) bool {
+							if call, ok := m.(*ast.CallExpr); ok && calleeOf(p2.TypesInfo, call) == fn && pi < len(call.Args) {
+								judge(caller, call.Pos(), p2.TypesInfo, call.Args[pi])
+							}
+							return true
+						})
+					})
+					return true
+				}
 			}
-			k := typeKey(n)
-			o := Obligation{Key: fmt.Sprintf("%s omits the comdat name of %s when it equals the default", funcKey(fn), k), Pos: c.pos(is.Pos()), Verdict: OK}
-			want, has := readerDefault[k]
-			got := normRoot(other)
-			switch {
-			case !has:
-				o.Verdict, o.Detail = UNDECIDED, "no translator case for *ast.Comdat fills a "+k
-			case got != want:
-				o.Verdict = VIOL
-				o.Detail = fmt.Sprintf("the printer writes the bare `comdat` when Comdat.Name == %s, the translator (%s) resolves a bare `comdat` to %s: for an entity on which the two differ the printed text names another comdat (or none)", got, readerPos[k], want)
-			default:
-				o.Detail = fmt.Sprintf("printer and translator both use %s", want)
-			}
-			obs = append(obs, o)
+			judge(fn, is.Pos(), info, other)
 			return true
 		})
 	})
@@ -232,6 +254,20 @@ func enclosingLoopsOf(pm parentMap, n ast.Node) []ast.Node {
 		}
 	}
 	return out
+}
+
+// returnsLocal: some return statement of fd hands back the local v as its first result.
+func (c *Ctx) returnsLocal(info *types.Info, fd *ast.FuncDecl, v types.Object) bool {
+	found := false
+	ast.Inspect(fd.Body, func(n ast.Node) bool {
+		if r, ok := n.(*ast.ReturnStmt); ok && len(r.Results) >= 1 {
+			if id, ok := unparen(r.Results[0]).(*ast.Ident); ok && info.ObjectOf(id) == v {
+				found = true
+			}
+		}
+		return true
+	})
+	return found
 }
 
 func ruleDEDUP(c *Ctx) []Obligation {
@@ -327,6 +363,56 @@ func ruleDEDUP(c *Ctx) []Obligation {
 							o.Verdict = VIOL
 							o.Detail = fmt.Sprintf("the set %s is re-created on every iteration of the loop at %s, but %s, to which the guarded elements are appended, is declared outside that loop: an element already appended in an earlier iteration is appended again", obj.Name(), c.pos(l.Pos()), exprString(target))
 						}
+					}
+					// the same across a call: set and collection are locals of a helper that returns the
+					// collection; a caller invokes the helper inside a loop and appends each result to
+					// a collection that outlives the loop — the set is re-created per call
+					if o.Verdict == OK && rootObj != nil && c.returnsLocal(info, fd, rootObj) {
+						c.eachFunc(path, func(p2 *packages.Package, fd2 *ast.FuncDecl, caller *types.Func) {
+							ci := p2.TypesInfo
+							pm2 := buildParents(fd2)
+							ast.Inspect(fd2.Body, func(m ast.Node) bool {
+								call, ok := m.(*ast.CallExpr)
+								if !ok || calleeOf(ci, call) != fn {
+									return true
+								}
+								as2, ok := pm2[call].(*ast.AssignStmt)
+								if !ok || len(as2.Lhs) == 0 {
+									return true
+								}
+								rid, ok := as2.Lhs[0].(*ast.Ident)
+								if !ok {
+									return true
+								}
+								res := ci.ObjectOf(rid)
+								for _, l := range enclosingLoopsOf(pm2, call) {
+									ast.Inspect(l, func(q ast.Node) bool {
+										a3, ok := q.(*ast.AssignStmt)
+										if !ok || len(a3.Lhs) != 1 || len(a3.Rhs) != 1 {
+											return true
+										}
+										ap, ok := a3.Rhs[0].(*ast.CallExpr)
+										if !ok || exprString(ap.Fun) != "append" || len(ap.Args) < 2 || exprString(ap.Args[0]) != exprString(a3.Lhs[0]) {
+											return true
+										}
+										uses := false
+										for _, a := range ap.Args[1:] {
+											if id, ok := unparen(a).(*ast.Ident); ok && ci.ObjectOf(id) == res {
+												uses = true
+											}
+										}
+										if r := rootIdent(a3.Lhs[0]); uses && r != nil {
+											if ro := ci.ObjectOf(r); ro != nil && !(ro.Pos() > l.Pos() && ro.Pos() < l.End()) {
+												o.Verdict, o.Pos = VIOL, c.pos(call.Pos())
+												o.Detail = fmt.Sprintf("the set %s lives inside %s, which %s calls once per iteration of the loop at %s while appending each result to %s, declared outside that loop: an element appended by an earlier call is appended again (duplicates are filtered within one call only)", obj.Name(), fn.Name(), funcKey(caller), c.pos(l.Pos()), exprString(a3.Lhs[0]))
+											}
+										}
+										return true
+									})
+								}
+								return true
+							})
+						})
 					}
 					obs = append(obs, o)
 					return true
@@ -463,6 +549,192 @@ type byteEval struct {
 	info  *types.Info
 	isVar func(ast.Expr) bool
 	val   int64
+	// lookup tables ([256]bool sets): resolved through the context; inside an inlined method the
+	// receiver denotes the caller's table
+	c       *Ctx
+	recv    types.Object
+	recvTab *[256]bool
+	depth   int
+}
+
+// tableOf resolves an expression to a byte set held as a [256]bool-like table.
+func (e *byteEval) tableOf(x ast.Expr) (*[256]bool, bool) {
+	x = unparen(x)
+	switch y := x.(type) {
+	case *ast.UnaryExpr:
+		if y.Op == token.AND {
+			return e.tableOf(y.X)
+		}
+	case *ast.StarExpr:
+		return e.tableOf(y.X)
+	case *ast.Ident:
+		if e.recv != nil && e.info.ObjectOf(y) == e.recv && e.recvTab != nil {
+			return e.recvTab, true
+		}
+	}
+	if e.c == nil {
+		return nil, false
+	}
+	if t, ok := e.c.byteTableOf(e.info, x, 0); ok {
+		return &t, true
+	}
+	return nil, false
+}
+
+// byteTableOf: the byte set denoted by a table expression — a package-level variable of an
+// array-of-bool type initialised by a composite literal with constant keys or by a constructor
+// of the shape  func(chars string) T { var set T; for … { set[chars[i]] = true }; return set }
+// applied to a constant string.
+func (c *Ctx) byteTableOf(info *types.Info, x ast.Expr, depth int) (set [256]bool, ok bool) {
+	if depth > 3 {
+		return set, false
+	}
+	x = unparen(x)
+	isBoolArray := func(t types.Type) bool {
+		if t == nil {
+			return false
+		}
+		if p, ok := t.Underlying().(*types.Pointer); ok {
+			t = p.Elem()
+		}
+		a, ok := t.Underlying().(*types.Array)
+		if !ok {
+			return false
+		}
+		b, ok := a.Elem().Underlying().(*types.Basic)
+		return ok && b.Kind() == types.Bool
+	}
+	switch y := x.(type) {
+	case *ast.UnaryExpr:
+		if y.Op == token.AND {
+			return c.byteTableOf(info, y.X, depth+1)
+		}
+	case *ast.Ident:
+		obj, _ := info.ObjectOf(y).(*types.Var)
+		if obj == nil || obj.Pkg() == nil || obj.Parent() != obj.Pkg().Scope() || !isBoolArray(obj.Type()) {
+			return set, false
+		}
+		p := c.pkg(obj.Pkg().Path())
+		if p == nil {
+			return set, false
+		}
+		// the variable must never be written after its initialisation
+		written := false
+		var init ast.Expr
+		for _, f := range p.Syntax {
+			ast.Inspect(f, func(n ast.Node) bool {
+				switch n := n.(type) {
+				case *ast.ValueSpec:
+					for i, nm := range n.Names {
+						if p.TypesInfo.Defs[nm] == obj && i < len(n.Values) {
+							init = n.Values[i]
+						}
+					}
+				case *ast.AssignStmt:
+					for _, l := range n.Lhs {
+						r := unparen(l)
+						if ix, ok := r.(*ast.IndexExpr); ok {
+							r = unparen(ix.X)
+						}
+						if id, ok := r.(*ast.Ident); ok && p.TypesInfo.ObjectOf(id) == obj {
+							written = true
+						}
+					}
+				}
+				return true
+			})
+		}
+		if init == nil || written {
+			return set, false
+		}
+		return c.byteTableOf(p.TypesInfo, init, depth+1)
+	case *ast.CompositeLit:
+		if !isBoolArray(info.TypeOf(y)) {
+			return set, false
+		}
+		for _, el := range y.Elts {
+			kv, ok := el.(*ast.KeyValueExpr)
+			if !ok {
+				return set, false
+			}
+			k, v := info.Types[kv.Key].Value, info.Types[kv.Value].Value
+			if k == nil || v == nil || v.Kind() != constant.Bool {
+				return set, false
+			}
+			i, exact := constant.Int64Val(constant.ToInt(k))
+			if !exact || i < 0 || i > 255 {
+				return set, false
+			}
+			set[i] = constant.BoolVal(v)
+		}
+		return set, true
+	case *ast.CallExpr:
+		if len(y.Args) != 1 {
+			return set, false
+		}
+		av := info.Types[y.Args[0]].Value
+		if av == nil || av.Kind() != constant.String {
+			return set, false
+		}
+		f := calleeOf(info, y)
+		fd := c.funcDecl(f)
+		if fd == nil || fd.Body == nil || !isBoolArray(info.TypeOf(y)) {
+			return set, false
+		}
+		fi := c.declPkg[fd].TypesInfo
+		sig := f.Type().(*types.Signature)
+		if sig.Params().Len() != 1 || !isStringNamed(sig.Params().At(0).Type()) {
+			return set, false
+		}
+		chars := sig.Params().At(0)
+		// every store into an array element in the body is  tbl[chars[i]] = true  (or the ranged
+		// byte of []byte(chars)) inside a loop over chars; nothing else writes the table
+		good, stores := true, 0
+		var rangedByte types.Object
+		ast.Inspect(fd.Body, func(n ast.Node) bool {
+			switch n := n.(type) {
+			case *ast.RangeStmt:
+				if call, ok := unparen(n.X).(*ast.CallExpr); ok && len(call.Args) == 1 {
+					if tv, ok := fi.Types[call.Fun]; ok && tv.IsType() {
+						if id, ok := unparen(call.Args[0]).(*ast.Ident); ok && fi.ObjectOf(id) == chars {
+							if v, ok := n.Value.(*ast.Ident); ok {
+								rangedByte = fi.ObjectOf(v)
+							}
+						}
+					}
+				}
+			case *ast.AssignStmt:
+				for i, l := range n.Lhs {
+					ix, ok := unparen(l).(*ast.IndexExpr)
+					if !ok || !isBoolArray(fi.TypeOf(ix.X)) {
+						continue
+					}
+					stores++
+					okIdx := false
+					switch k := unparen(ix.Index).(type) {
+					case *ast.IndexExpr:
+						if id, ok := unparen(k.X).(*ast.Ident); ok && fi.ObjectOf(id) == chars {
+							okIdx = true
+						}
+					case *ast.Ident:
+						okIdx = rangedByte != nil && fi.ObjectOf(k) == rangedByte
+					}
+					if !okIdx || i >= len(n.Rhs) || exprString(n.Rhs[i]) != "true" {
+						good = false
+					}
+				}
+			}
+			return true
+		})
+		if !good || stores != 1 {
+			return set, false
+		}
+		for _, b := range []byte(constant.StringVal(av)) {
+			set[b] = true
+		}
+		return set, true
+	}
+	return set, false
 }
 
 func (e *byteEval) eval(x ast.Expr) (constant.Value, bool) {
@@ -531,6 +803,19 @@ func (e *byteEval) eval(x ast.Expr) (constant.Value, bool) {
 			}
 			return constant.BinaryOp(constant.ToInt(a), x.Op, constant.ToInt(b)), true
 		}
+	case *ast.IndexExpr:
+		// membership in a lookup table
+		if tab, ok := e.tableOf(x.X); ok {
+			i, ok := e.eval(x.Index)
+			if !ok || !isNumKind(i) {
+				return nil, false
+			}
+			iv, exact := constant.Int64Val(constant.ToInt(i))
+			if !exact || iv < 0 || iv > 255 {
+				return nil, false
+			}
+			return constant.MakeBool(tab[iv]), true
+		}
 	case *ast.CallExpr:
 		if tv, ok := e.info.Types[x.Fun]; ok && tv.IsType() && len(x.Args) == 1 {
 			return e.eval(x.Args[0]) // conversion
@@ -538,6 +823,35 @@ func (e *byteEval) eval(x ast.Expr) (constant.Value, bool) {
 		f := calleeOf(e.info, x)
 		if f == nil || f.Pkg() == nil {
 			return nil, false
+		}
+		// a one-line predicate of the module — func (set *T) contains(b byte) bool { return set[b] },
+		// func isX(b byte) bool { return … } — is inlined with its argument's value
+		if e.c != nil && e.c.isOurs(f.Pkg().Path()) && len(x.Args) == 1 && e.depth < 3 {
+			if fd := e.c.funcDecl(f); fd != nil && fd.Body != nil && len(fd.Body.List) == 1 {
+				if r, ok := fd.Body.List[0].(*ast.ReturnStmt); ok && len(r.Results) == 1 {
+					av, ok := e.eval(x.Args[0])
+					sig := f.Type().(*types.Signature)
+					if ok && isNumKind(av) && sig.Params().Len() == 1 {
+						a64, _ := constant.Int64Val(constant.ToInt(av))
+						fi := e.c.declPkg[fd].TypesInfo
+						param := sig.Params().At(0)
+						child := &byteEval{info: fi, c: e.c, val: a64, depth: e.depth + 1, isVar: func(z ast.Expr) bool {
+							id, isID := z.(*ast.Ident)
+							return isID && fi.ObjectOf(id) == param
+						}}
+						if sig.Recv() != nil {
+							if se, ok := unparen(x.Fun).(*ast.SelectorExpr); ok {
+								if tab, ok := e.tableOf(se.X); ok {
+									child.recv, child.recvTab = sig.Recv(), tab
+								}
+							}
+						}
+						if v, ok := child.eval(r.Results[0]); ok {
+							return v, true
+						}
+					}
+				}
+			}
 		}
 		name := f.Pkg().Path() + "." + f.Name()
 		switch name {
@@ -576,7 +890,7 @@ func isNumKind(v constant.Value) bool {
 // byteSet evaluates cond for every byte value; ok=false if some value cannot be evaluated.
 func byteSet(info *types.Info, cond ast.Expr, isVar func(ast.Expr) bool) (set [256]bool, ok bool) {
 	for v := 0; v < 256; v++ {
-		ev := &byteEval{info: info, isVar: isVar, val: int64(v)}
+		ev := &byteEval{info: info, isVar: isVar, val: int64(v), c: curCtx}
 		r, good := ev.eval(cond)
 		if !good || r.Kind() != constant.Bool {
 			return set, false
@@ -757,14 +1071,48 @@ func ruleENCSET(c *Ctx) []Obligation {
 				nEsc[fn]++
 				o := Obligation{Key: fmt.Sprintf("%s: byte class passed to enc.Escape #%d", funcKey(fn), nEsc[fn]), Pos: c.pos(call.Pos()), Verdict: OK}
 				var fl *ast.FuncLit
+				var mset *[256]bool
 				switch a := unparen(call.Args[1]).(type) {
 				case *ast.FuncLit:
 					fl = a
 				case *ast.Ident:
 					fl = lits[info.ObjectOf(a)]
+					if fl == nil {
+						// a declared one-line predicate
+						if f, ok := info.ObjectOf(a).(*types.Func); ok {
+							if pfd := c.funcDecl(f); pfd != nil && pfd.Body != nil {
+								if set, ok := c.predicateAccepts(c.declPkg[pfd].TypesInfo, pfd.Type, pfd.Body); ok {
+									mset = &set
+								}
+							}
+						}
+					}
+				case *ast.SelectorExpr:
+					// a method value of a lookup table: tailSet.contains
+					var set [256]bool
+					good := true
+					for v := 0; v < 256 && good; v++ {
+						ev := &byteEval{info: info, c: c, val: int64(v), isVar: func(z ast.Expr) bool { return z == ast.Expr(a) }}
+						// evaluate the call a(<v>) by inlining: build it from the method's declaration
+						probe := &ast.CallExpr{Fun: a, Args: []ast.Expr{a}}
+						r, ok := ev.eval(probe)
+						if !ok || r.Kind() != constant.Bool {
+							good = false
+							break
+						}
+						set[v] = constant.BoolVal(r)
+					}
+					if good {
+						mset = &set
+					}
 				}
-				if fl == nil {
-					o.Verdict, o.Detail = UNDECIDED, "the predicate is not a function literal of this function"
+				if mset != nil {
+					checkClass(&o, *mset)
+					if fn.Pkg().Path() == pkgENC && fn.Name() == "EscapeString" {
+						validSet, haveValid = *mset, o.Verdict == OK
+					}
+				} else if fl == nil {
+					o.Verdict, o.Detail = UNDECIDED, "the predicate is neither a function literal, a one-line predicate function, nor a method value of a lookup table"
 				} else if set, ok := c.predicateAccepts(info, fl.Type, fl.Body); !ok {
 					o.Verdict, o.Detail = UNDECIDED, "the predicate is not a single boolean expression over its byte parameter"
 				} else {
@@ -1585,153 +1933,11 @@ func ruleENCCLASS(c *Ctx) []Obligation {
 func init() {
 	register(&Rule{
 		Name:  "GEP-RES",
-		Doc:   "in the shared walk gep.ResultType every index — the first included — is examined for a vector length before anything can skip it (LangRef: a vector of pointers is returned when one or more arguments is a vector), and the result pointer type receives the source's address space unconditionally, before it is returned or wrapped in a vector",
+		Doc:   "in the shared walk gep.ResultType (and whatever functions of package gep it is split into) every index — the first included — is examined for a vector length on every path through its iteration (LangRef: a vector of pointers is returned when one or more arguments is a vector); the result pointer type receives the source's address space unconditionally; the length and the scalable flag of a vector-of-pointers result each derive from both the source vector type and the index",
 		Floor: 2,
+		NeedS: true,
 		Run:   ruleGEPRES,
 	})
-}
-
-func ruleGEPRES(c *Ctx) []Obligation {
-	fn := c.lookupFunc(pkgGEP, "ResultType")
-	fd := c.funcDecl(fn)
-	if fd == nil {
-		return []Obligation{{Key: "gep.ResultType", Verdict: UNDECIDED, Detail: "function not found", Tags: []string{"gep"}}}
-	}
-	info := c.pkg(pkgGEP).TypesInfo
-	var obs []Obligation
-	// (1) the loop over the indices
-	o1 := Obligation{Key: "gep.ResultType examines every index for a vector length", Pos: c.pos(fd.Pos()), Verdict: UNDECIDED, Detail: "no range over the index list found", Tags: []string{"gep"}}
-	sig := fn.Type().(*types.Signature)
-	var idxParam types.Object
-	for i := 0; i < sig.Params().Len(); i++ {
-		if _, ok := sig.Params().At(i).Type().(*types.Slice); ok {
-			idxParam = sig.Params().At(i)
-		}
-	}
-	containsContinue := func(st ast.Stmt) bool {
-		found := false
-		ast.Inspect(st, func(m ast.Node) bool {
-			switch m := m.(type) {
-			case *ast.ForStmt, *ast.RangeStmt, *ast.FuncLit:
-				return false
-			case *ast.BranchStmt:
-				if m.Tok == token.CONTINUE || m.Tok == token.BREAK {
-					found = true
-				}
-			}
-			return true
-		})
-		return found
-	}
-	readsVectorLen := func(st ast.Stmt) bool {
-		found := false
-		ast.Inspect(st, func(m ast.Node) bool {
-			if se, ok := m.(*ast.SelectorExpr); ok && se.Sel.Name == "VectorLen" {
-				if sel, ok := info.Selections[se]; ok && isNamed(sel.Recv(), pkgGEP, "Index") {
-					found = true
-				}
-			}
-			return true
-		})
-		return found
-	}
-	ast.Inspect(fd.Body, func(nd ast.Node) bool {
-		rs, ok := nd.(*ast.RangeStmt)
-		if !ok {
-			return true
-		}
-		if id, ok := unparen(rs.X).(*ast.Ident); !ok || info.ObjectOf(id) != idxParam {
-			return true
-		}
-		o1.Pos = c.pos(rs.Pos())
-		o1.Verdict, o1.Detail = VIOL, "the loop over the indices never reads Index.VectorLen: a vector index does not make the result a vector of pointers"
-		skipped := token.NoPos
-		for _, st := range rs.Body.List {
-			if readsVectorLen(st) {
-				if skipped != token.NoPos {
-					o1.Pos = c.pos(skipped)
-					o1.Detail = fmt.Sprintf("a continue/break at %s can leave the iteration before the index's vector length is examined (at %s): an index skipped there — the first index steps through the pointer but still decides whether the result is a vector of pointers — is ignored, and `getelementptr T, T* %%p, <4 x i64> %%v` is typed T* instead of <4 x T*>", c.pos(skipped), c.pos(st.Pos()))
-				} else {
-					o1.Verdict, o1.Detail = OK, "the vector-length test is the first thing done for every index"
-				}
-				break
-			}
-			if containsContinue(st) && skipped == token.NoPos {
-				skipped = st.Pos()
-			}
-		}
-		return false
-	})
-	obs = append(obs, o1)
-	// (2) the result pointer's address space
-	o2 := Obligation{Key: "gep.ResultType gives the result pointer the source's address space on every path", Pos: c.pos(fd.Pos()), Verdict: UNDECIDED, Detail: "no result pointer construction found", Tags: []string{"gep"}}
-	pm := buildParents(fd.Body)
-	ast.Inspect(fd.Body, func(nd ast.Node) bool {
-		as, ok := nd.(*ast.AssignStmt)
-		if !ok || len(as.Lhs) != 1 || len(as.Rhs) != 1 {
-			return true
-		}
-		id, ok := as.Lhs[0].(*ast.Ident)
-		if !ok || !isNamed(info.TypeOf(as.Rhs[0]), pkgTYP, "PointerType") {
-			return true
-		}
-		ptr := info.ObjectOf(id)
-		o2.Pos = c.pos(as.Pos())
-		// composite literal with the field set
-		if ue, ok := unparen(as.Rhs[0]).(*ast.UnaryExpr); ok {
-			if cl, ok := ue.X.(*ast.CompositeLit); ok {
-				for _, el := range cl.Elts {
-					if kv, ok := el.(*ast.KeyValueExpr); ok && exprString(kv.Key) == "AddrSpace" {
-						o2.Verdict, o2.Detail = OK, "set in the literal"
-						return false
-					}
-				}
-			}
-		}
-		var list []ast.Stmt
-		switch p := pm[as].(type) {
-		case *ast.BlockStmt:
-			list = p.List
-		case *ast.CaseClause:
-			list = p.Body
-		}
-		o2.Verdict, o2.Detail = VIOL, "the result pointer type is built without the source's address space: a gep on an addrspace(K) pointer yields a default-address-space pointer"
-		after := false
-		for _, st := range list {
-			if st == ast.Stmt(as) {
-				after = true
-				continue
-			}
-			if !after {
-				continue
-			}
-			uses := false
-			ast.Inspect(st, func(m ast.Node) bool {
-				if u, ok := m.(*ast.Ident); ok && info.ObjectOf(u) == ptr {
-					uses = true
-				}
-				return true
-			})
-			if !uses {
-				continue
-			}
-			// the first statement that mentions the pointer must be the unconditional store
-			if s2, ok := st.(*ast.AssignStmt); ok && len(s2.Lhs) == 1 {
-				if se, ok := unparen(s2.Lhs[0]).(*ast.SelectorExpr); ok && se.Sel.Name == "AddrSpace" {
-					if r, ok := unparen(se.X).(*ast.Ident); ok && info.ObjectOf(r) == ptr {
-						o2.Verdict, o2.Detail = OK, "ptr.AddrSpace = "+exprString(s2.Rhs[0])+" directly after construction, before any use"
-						break
-					}
-				}
-			}
-			o2.Pos = c.pos(st.Pos())
-			o2.Detail = "the result pointer is used (returned, or wrapped in a vector) on a path on which its address space has not been set: the vector-of-pointers result of a gep on an addrspace(K) base comes out in address space 0"
-			break
-		}
-		return false
-	})
-	obs = append(obs, o2)
-	return obs
 }
 
 // ---------------------------------------------------------------------------
